@@ -396,3 +396,79 @@ func ErrStr(err error) string {
 	}
 	return err.Error()
 }
+
+// ---- child-process reports: a child run serialises its observations, the parent merges them ----
+
+type ChildReport struct {
+	Evals      int64            `json:"evals"`
+	Distinct   []uint64         `json:"distinct"`
+	Samples    []any            `json:"samples"`
+	Violations []Violation      `json:"violations"`
+	ViolCount  int              `json:"viol_count"`
+	ViolSigs   map[string]int   `json:"viol_sigs"`
+	Inconcl    []string         `json:"inconclusive"`
+	Counters   map[string]int64 `json:"counters"`
+	Extra      map[string]any   `json:"extra"`
+}
+
+func (r *Run) Export() ChildReport {
+	rep := ChildReport{Evals: r.evals.Load(), Counters: map[string]int64{}, ViolSigs: map[string]int{}}
+	for i := range r.shards {
+		r.shards[i].mu.Lock()
+		for k := range r.shards[i].m {
+			rep.Distinct = append(rep.Distinct, k)
+		}
+		r.shards[i].mu.Unlock()
+	}
+	r.mu.Lock()
+	defer r.mu.Unlock()
+	rep.Samples = r.samples
+	rep.Violations = r.viol
+	rep.ViolCount = r.violCount
+	for k, v := range r.violSigs {
+		rep.ViolSigs[k] = v
+	}
+	rep.Inconcl = r.inconcl
+	for k, c := range r.counters {
+		rep.Counters[k] = c.Load()
+	}
+	rep.Extra = r.Extra
+	return rep
+}
+
+func (r *Run) Merge(rep ChildReport) {
+	r.evals.Add(rep.Evals)
+	for _, v := range rep.Distinct {
+		s := &r.shards[v%64]
+		s.mu.Lock()
+		s.m[v] = struct{}{}
+		s.mu.Unlock()
+	}
+	for k, v := range rep.Counters {
+		r.Count(k, int(v))
+	}
+	for _, s := range rep.Inconcl {
+		r.Inconclusive(s)
+	}
+	r.mu.Lock()
+	defer r.mu.Unlock()
+	for _, s := range rep.Samples {
+		if len(r.samples) < r.sampleCap+8 {
+			r.samples = append(r.samples, s)
+		}
+	}
+	r.violCount += rep.ViolCount
+	for k, v := range rep.ViolSigs {
+		r.violSigs[k] += v
+	}
+	for _, v := range rep.Violations {
+		if len(r.viol) < 3000 {
+			r.viol = append(r.viol, v)
+		}
+	}
+	for k, v := range rep.Extra {
+		if _, ok := r.Extra[k]; !ok {
+			r.Extra[k] = v
+		}
+	}
+}
